@@ -90,6 +90,22 @@ CHECKS = {
         'payment A frozen at each of its first 5 RPCs or on its timer, payment B still settles with its own preimage; every datastore key of a lifecycle names its own hash; the fee budget of B comes from B only.',
    design='4/C14', technique='symbolic execution of the real async stack from MIR under an explicit-state scheduler with partial-order reduction; SMT decides data; native replay over a fake node',
    note=TRUST + '; quick tier: B arrives once A is stuck (thorough: free interleaving); 1 HTLC per hash.'),
+ 'C02': dict(category='model_checking',
+   text='Full stack from MIR: at the instant any Fail is handed to a held HTLC (once an outgoing attempt exists) no part is pending or complete and no pay command is running. '
+        'Configurations: every stored history (absent / Pending with a pending, complete or failed earlier part / Succeeded); every pay outcome (complete, pending, failed, failed+warning, RPC error) with any part resolution order; '
+        'a second set arriving at any point of the first lifecycle; one whole-node crash at any point with replay of unanswered HTLCs; one injected RPC fault on listsendpays / waitsendpay / listdatastore / datastore.',
+   design='4/C02', technique='symbolic execution of the real async stack from MIR under an explicit-state scheduler with partial-order reduction; SMT decides data; native replay over a fake node',
+   note=TRUST + '; bounds: 1 part per pay command + 1 earlier, 1 crash, 1 fault.'),
+ 'C05': dict(category='model_checking',
+   text='Full stack from MIR: at every pay RPC call no part of that hash is pending or complete and no other pay is running - over every stored history, every pay outcome and part resolution order, '
+        'two consecutive sets for one invoice (the second arriving anywhere in the tail of the first lifecycle), and one crash at any point.',
+   design='4/C05', technique='symbolic execution of the real async stack from MIR under an explicit-state scheduler with partial-order reduction; SMT decides data; native replay over a fake node',
+   note=TRUST + '; bounds: 1 part per pay command + 1 earlier, 1 crash; RPC faults only in the thorough tier.'),
+ 'C08': dict(category='model_checking',
+   text='Full stack from MIR with the real ClnDatastore against the datastore model: after every applied environment effect (each a possible crash image) a pending or complete part implies a Pending or Succeeded record; '
+        'the Pending record is applied before the pay call; Succeeded holds pre(H); two lifecycles of one hash, one crash, one datastore write rejected or applied-but-reported-failed.',
+   design='4/C08', technique='symbolic execution of the real async stack from MIR under an explicit-state scheduler with partial-order reduction; SMT decides data; native replay over a fake node',
+   note=TRUST + '; serde_json is a token contract (the JSON text is outside); bounds as C02.'),
 }
 
 NOT_YET = 'harness not built yet in this session (see DESIGN.md build order); will be claimed once its check exists'
